@@ -669,12 +669,12 @@ FAULT_REGIONS = ["_lower_and_call", "wrapped", "lower_equation_with_plugin", "lo
 FIX = "fx::c13::"
 ENUM_QUICK = ["flat", "net", "outer", "fn_boundary_f64"]
 ENUM_THOROUGH = ["flat", "net", "outer", "fn_boundary", "eqx_block", "plain", "kwblock", "flat_f64", "fn_boundary_f64", "cf_nested"]
-PROBE_PIDS = ["flat", "net", "outer", "fn_boundary", "eqx_block", "plain", "jit_cold", "jit_cold2", "kwblock", "cf_nested", "eqx_rope"]
+PROBE_PIDS = ["flat", "net", "outer", "fn_boundary", "eqx_block", "plain", "jit_cold", "jit_cold2", "kwblock", "cf_nested", "eqx_rope", "ckpt_fn"]
 
 
 def gen_history(seed: int, run: int, registry: list[str], n_ops: int) -> list[dict]:
     r = rng("c13-history", seed, run)
-    fixtures = [FIX + n for n in ["flat", "net", "outer", "fn_boundary", "eqx_block", "plain", "jit_cold", "jit_cold2", "flat_f64", "fn_boundary_f64", "cf_nested", "kwblock", "cf_fn_in_scan", "eqx_rope", "eqx_rope_long"]]
+    fixtures = [FIX + n for n in ["flat", "net", "outer", "fn_boundary", "eqx_block", "plain", "jit_cold", "jit_cold2", "flat_f64", "fn_boundary_f64", "cf_nested", "kwblock", "cf_fn_in_scan", "eqx_rope", "eqx_rope_long", "ckpt_fn"]]
     reg_pool = r.sample(registry, min(len(registry), 6)) if registry else []
     pool = fixtures + reg_pool
     probes = [FIX + n for n in PROBE_PIDS] + reg_pool[:3]
